@@ -1,4 +1,6 @@
 # Family "ptypes": Parquet Thrift structures (parse_* / write_* of src/thrift/parquet_types.c)
+# C08 / C19: parser safety with the Thrift primitives and the arena replaced by ASSUMED contracts (stubs/ptypes_stubs.c)
+# C13     : writer conformance against parquet.thrift (specs/parquet_thrift_table.h) by checking stub bodies
 R_STUBS = ['thrift_decoder_init', 'thrift_read_byte', 'thrift_read_i16', 'thrift_read_i32', 'thrift_read_i64',
            'thrift_read_bool', 'thrift_read_binary', 'thrift_read_struct_begin', 'thrift_read_struct_end',
            'thrift_read_field_begin', 'thrift_read_list_begin', 'thrift_skip']
@@ -12,57 +14,87 @@ DO_WHILE_0 = ['parquet_parse_file_metadata.0:1', 'parquet_parse_file_metadata.2:
               'parse_column_metadata.7:1', 'parse_row_group.0:1']
 P = dict(overlays=['contracts/ptypes.ovl'], includes=['.'], unwindset=DO_WHILE_0,
          extra_sources=['stubs/mem_stubs.c', 'stubs/ptypes_stubs.c'], trusted=TRUST_R)
+FZ_PH = dict(kind='fuzz', harness='replay/fz/ptypes_page_header.c', max_len=64, secs=20,
+             sources=['src/thrift/parquet_types.c', 'src/thrift/thrift_decode.c', 'src/thrift/thrift_encode.c',
+                      'src/core/arena.c', 'src/core/buffer.c', 'src/core/error.c'])
+FZ_FM = dict(FZ_PH, harness='replay/fz/ptypes_file_metadata.c', max_len=256, secs=30)
+
+# state of each job: (C08 wip, C19 wip, tier, note)
+DONE = False
+OPEN = True
 
 
-def parse_jobs(fn, entry, callees=(), loops=1, est=20, **kw):
-    """one C08 job (fault-free allocation) and one C19 job (every arena request may fail) per parser"""
+def parse_jobs(fn, entry, callees=(), loops=1, est=60, c08_wip=OPEN, c19_wip=OPEN, tier='quick', note08=None, note19=None, **kw):
+    """one C08 job (fault-free allocation: -DCQV_ALLOC_NEVER_FAILS) and one C19 job (every arena request may fail) per parser"""
     rep = R_STUBS + A_STUBS + list(callees)
-    base = dict(entry=entry, enforce=fn, replace=rep, min_loop_obligations=loops, est_s=est, **P)
+    base = dict(entry=entry, enforce=fn, replace=rep, min_loop_obligations=loops, est_s=est, tier=tier, **P)
     base.update(kw)
-    return [
-        dict(name='c08_' + fn, prop='C08', harness='harness/C08/ptypes.py'.replace('.py', '.c'),
-             defines=['CQV_ALLOC_NEVER_FAILS=1', 'CQV_FN_%s=1' % fn], wip=True, **base),
-        dict(name='c19_' + fn, prop='C19', harness='harness/C19/ptypes.c', defines=['CQV_FN_%s=1' % fn], wip=True, **base),
-    ]
+    a = dict(name='c08_' + fn, prop='C08', harness='harness/C08/ptypes.c',
+             defines=['CQV_ALLOC_NEVER_FAILS=1', 'CQV_FN_%s=1' % fn], wip=c08_wip, **base)
+    b = dict(name='c19_' + fn, prop='C19', harness='harness/C19/ptypes.c', defines=['CQV_FN_%s=1' % fn], wip=c19_wip, **base)
+    if note08:
+        a['note'] = note08
+    if note19:
+        b['note'] = note19
+    return [a, b]
 
 
+N19 = ('FINDING (C19): arena results are never checked in parquet_types.c: a failed carquet_arena_strndup/memdup is '
+       'silently turned into a NULL member while the decoder status stays OK (postcondition "allocation failure => error '
+       'status" fails); a failed carquet_arena_calloc is dereferenced in the fill loop (native: /tmp/ptypes/native)')
+ARR = ('UNDECIDED: symbolic execution of the list fill loop (struct-sized out-parameter at a symbolic index of a '
+       'symbolic-size arena array) does not finish within 600 s on the shared machine')
 JOBS = []
-JOBS += parse_jobs('parse_statistics', 'h_parse_statistics')
-JOBS += parse_jobs('parse_logical_type', 'h_parse_logical_type', loops=7)
-JOBS += parse_jobs('parse_schema_element', 'h_parse_schema_element', callees=['parse_logical_type'])
-JOBS += parse_jobs('parse_column_metadata', 'h_parse_column_metadata', callees=['parse_statistics'], loops=7, est=60)
-JOBS += parse_jobs('parse_column_chunk', 'h_parse_column_chunk', callees=['parse_column_metadata'])
-JOBS += parse_jobs('parse_row_group', 'h_parse_row_group', callees=['parse_column_chunk'], loops=2)
-JOBS += parse_jobs('parquet_parse_file_metadata', 'h_parse_file_metadata', callees=['parse_schema_element', 'parse_row_group'], loops=5, est=60)
-JOBS += parse_jobs('parquet_parse_page_header', 'h_parse_page_header', loops=4, est=40)
+JOBS += parse_jobs('parse_statistics', 'h_parse_statistics', est=90, c08_wip=DONE, note19=N19)
+JOBS += parse_jobs('parse_logical_type', 'h_parse_logical_type', loops=7, est=420, tier='thorough', timeout=1200, c08_wip=DONE,
+                   note19='no allocation in this function: identical to the C08 job, not run separately')
+JOBS += parse_jobs('parse_schema_element', 'h_parse_schema_element', callees=['parse_logical_type'], c08_wip=DONE, note19=N19)
+JOBS += parse_jobs('parse_column_metadata', 'h_parse_column_metadata', callees=['parse_statistics'], loops=7, est=600,
+                   tier='thorough', timeout=1500, note08=ARR, note19=N19)
+JOBS += parse_jobs('parse_column_chunk', 'h_parse_column_chunk', callees=['parse_column_metadata'], c08_wip=DONE, note19=N19)
+JOBS += parse_jobs('parse_row_group', 'h_parse_row_group', callees=['parse_column_chunk'], loops=2, tier='thorough',
+                   note08=ARR, note19=N19)
+JOBS += parse_jobs('parquet_parse_file_metadata', 'h_parse_file_metadata', callees=['parse_schema_element', 'parse_row_group'],
+                   loops=5, est=600, tier='thorough', replayer=FZ_FM, note08=ARR + ' (not run to completion)', note19=N19)
+JOBS += parse_jobs('parquet_parse_page_header', 'h_parse_page_header', loops=4, est=160, replayer=FZ_PH, c08_wip=DONE,
+                   note19='no allocation in this function: identical to the C08 job, not run separately')
 
 # ---- C13 writer conformance: thrift_write_* are checking bodies (-DCQV_PT_WRITER); pointer checks off -------------
 TRUST_W = ['stubs/ptypes_stubs.c (-DCQV_PT_WRITER): thrift_write_* replaced by bodies that keep a ghost stack of open structs and '
            'assert specs/parquet_thrift_table.h (written from parquet.thrift); buffer effects of the encoder not modelled '
-           '(status may become an error at any primitive)']
+           '(status may become an error at any primitive)',
+           'metadata trees are well formed: list counts >= 0, logical-type ids are enumerators, arrays hold count elements '
+           '(contract preconditions; for list elements assumed element-wise via CQV_WF_ASSUME in the overlay)']
 W = dict(prop='C13', overlays=['contracts/ptypes.ovl'], includes=['.'], harness='harness/C13/ptypes.c',
          extra_sources=['stubs/mem_stubs.c', 'stubs/ptypes_stubs.c'], trusted=TRUST_W, checks=['--bounds-check'], object_bits=12,
-         soft=[r'^dereference failure', r' in R_OK\('],  # validity of the metadata arrays is not a C13 obligation (reported, not counted)
+         # validity of the metadata arrays is not a C13 obligation (reported, not counted)
+         soft=[r'^dereference failure', r' in R_OK\('],
          unwind=13)  # the only unwound loop: ghost-state havoc in the harness (12 records)
 
 
-def writer_job(fn, entry, callees=(), loops=0, **kw):
+def writer_job(fn, entry, callees=(), loops=0, wip=OPEN, **kw):
     d = dict(name='c13_' + fn, entry=entry, enforce=fn, replace=list(callees), min_loop_obligations=loops,
-             defines=['CQV_PT_WRITER=1', 'CQV_FN_%s=1' % fn], loop_contracts=True, wip=True, **W)
+             defines=['CQV_PT_WRITER=1', 'CQV_FN_%s=1' % fn], loop_contracts=True, wip=wip, est_s=90, **W)
     d.update(kw)
     return d
 
 
+DEPTH = ('UNDECIDED: assigns-clause / postcondition obligations about the depth-indexed ghost records fail after the loop whose '
+         'body is a replaced write_<struct> call (the loop-contract pass evaluates cqv_w_left[cqv_w_depth-1] after havocking '
+         'cqv_w_depth); needs the frame restated without depth-indexed assigns targets; no conformance assertion fails')
 JOBS += [
-    writer_job('write_statistics', 'h_write_statistics'),
-    writer_job('write_logical_type', 'h_write_logical_type'),
+    writer_job('write_statistics', 'h_write_statistics', wip=DONE),
+    writer_job('write_logical_type', 'h_write_logical_type', wip=DONE, est_s=120),
     writer_job('write_schema_element', 'h_write_schema_element', callees=['write_logical_type'],
-               note='FINDING: required field 4 (name) is not written when elem->name == NULL'),
+               note='FINDING (C13): SchemaElement.name is "required" in parquet.thrift but field 4 is written only when '
+                    'elem->name != NULL (parquet_types.c write_schema_element); every other obligation is discharged '
+                    '(see c13_write_schema_element_named)'),
     writer_job('write_schema_element', 'h_write_schema_element', callees=['write_logical_type'], name='c13_write_schema_element_named',
-               defines=['CQV_PT_WRITER=1', 'CQV_FN_write_schema_element=1', 'CQV_SE_NAMED=1']),
-    writer_job('write_column_metadata', 'h_write_column_metadata', callees=['write_statistics'], loops=2),
-    writer_job('write_column_chunk', 'h_write_column_chunk', callees=['write_column_metadata']),
-    writer_job('write_row_group', 'h_write_row_group', callees=['write_column_chunk'], loops=1),
-    writer_job('parquet_write_file_metadata', 'h_write_file_metadata', callees=['write_schema_element', 'write_row_group'], loops=3),
-    writer_job('parquet_write_page_header', 'h_write_page_header', callees=['write_statistics']),
+               defines=['CQV_PT_WRITER=1', 'CQV_FN_write_schema_element=1', 'CQV_SE_NAMED=1'], wip=DONE),
+    writer_job('write_column_metadata', 'h_write_column_metadata', callees=['write_statistics'], loops=2, wip=DONE),
+    writer_job('write_column_chunk', 'h_write_column_chunk', callees=['write_column_metadata'], wip=DONE),
+    writer_job('write_row_group', 'h_write_row_group', callees=['write_column_chunk'], loops=1, note=DEPTH),
+    writer_job('parquet_write_file_metadata', 'h_write_file_metadata', callees=['write_schema_element', 'write_row_group'], loops=3,
+               note=DEPTH),
+    writer_job('parquet_write_page_header', 'h_write_page_header', callees=['write_statistics'], wip=DONE),
 ]
